@@ -15,7 +15,9 @@ package pipeline
 // section; an update changes either or both (an update of the resilience section alone leaves the
 // filter's own spec byte-identical).  Two kinds make the configuration of the generation a request
 // holds observable (behaviours of their own, with request classes):
-//   RateLimiter        class "x" requests (POST) fall under a URL rule limited to one permit per hour
+//   RateLimiter        class "x" requests (POST) fall under a URL rule limited to one permit per hour; class "d"
+//                      requests (PUT) under a rule whose limit is the one of the filter's default policy, which
+//                      updates of kind "dflt" switch between tight (1 permit per hour) and loose (never limits)
 //   Proxy/resilience   class "f" requests are answered 503 by the backend: the Proxy retries them as the
 //                      retry policy of the pipeline's resilience section says (maxAttempts = pv + 1)
 
@@ -85,6 +87,8 @@ type c11Kind struct {
 	tls     bool
 	beh     string              // behaviours replayed: "" generic (Kinds = <<"k">>), "rl" / "px" with request classes
 	resil   func(pv int) string // yaml entries of the `resilience:` section, version pv (default: a policy nobody refers to)
+	// yaml like `filters`, for kinds whose spec has a default-policy choice: version dv of the choice, expressed in way `how`
+	filtersD func(ver, dv, how int) string
 }
 
 var c11Attempts sync.Map // request id -> *int64: calls that reached the backend
@@ -211,13 +215,7 @@ func c11KindTable() []c11Kind {
 		}, resil: func(pv int) string {
 			return fmt.Sprintf("- {name: retry, kind: Retry, maxAttempts: %d, waitDuration: 1ms}\n", pv+1)
 		}},
-		{name: "RateLimiter", kind: "RateLimiter", ctx: "http", beh: "rl", filters: func(v int) string {
-			return fmt.Sprintf("filters:\n- name: f\n  kind: RateLimiter\n  defaultPolicyRef: p\n  policies:\n"+
-				"  - {name: p, limitForPeriod: 1000000, limitRefreshPeriod: 10ms, timeoutDuration: 100ms}\n"+
-				"  - {name: tight, limitForPeriod: 1, limitRefreshPeriod: 1h, timeoutDuration: 1ms}\n"+
-				"  - {name: unused, limitForPeriod: %d}\n"+
-				"  urls:\n  - {methods: [POST], url: {prefix: /}, policyRef: tight}\n  - {url: {prefix: /}}\n", 10+v)
-		}},
+		{name: "RateLimiter", kind: "RateLimiter", ctx: "http", beh: "rl", filters: func(v int) string { return c11RlFilters(v, 1, 0) }, filtersD: c11RlFilters},
 		{name: "RateLimiter/policy-changed", kind: "RateLimiter", ctx: "http", filters: func(v int) string {
 			return fmt.Sprintf("filters:\n- name: f\n  kind: RateLimiter\n  defaultPolicyRef: p\n  policies:\n"+
 				"  - {name: p, limitForPeriod: %d, limitRefreshPeriod: 10ms, timeoutDuration: 100ms}\n  urls: [{url: {prefix: /}}]\n", 1000000+v)
@@ -265,12 +263,43 @@ func c11KindTable() []c11Kind {
 	}
 }
 
-func (k *c11Kind) spec(pipe string, fv, pv int) (*supervisor.Spec, error) {
+// c11RlFilters: POST is limited to one permit per hour in every version; PUT falls under the default policy, version dv of
+// which is tight (odd dv: 1 permit per hour) or loose (even dv); the switch is expressed by (how) 0: defaultPolicyRef dA / dB,
+// both defined identically in every version, 1: the rule's policyRef, 2: the content of the policy defaultPolicyRef names.
+func c11RlFilters(v, dv, how int) string {
+	const tight, loose = "limitForPeriod: 1, limitRefreshPeriod: 1h, timeoutDuration: 1ms", "limitForPeriod: 1000000, limitRefreshPeriod: 10ms, timeoutDuration: 100ms"
+	name, content := "dA", tight
+	if dv%2 == 0 {
+		name, content = "dB", loose
+	}
+	dref, pref := name, ""
+	switch how {
+	case 1:
+		dref, pref = "p", ", policyRef: "+name
+	case 2:
+		dref = "dflt"
+	}
+	return fmt.Sprintf("filters:\n- name: f\n  kind: RateLimiter\n  defaultPolicyRef: %s\n  policies:\n"+
+		"  - {name: p, %s}\n  - {name: tight, %s}\n  - {name: dA, %s}\n  - {name: dB, %s}\n  - {name: dflt, %s}\n"+
+		"  - {name: unused, limitForPeriod: %d}\n"+
+		"  urls:\n  - {methods: [POST], url: {prefix: /}, policyRef: tight}\n  - {methods: [PUT], url: {prefix: /}%s}\n  - {url: {prefix: /}, policyRef: p}\n",
+		dref, loose, tight, tight, loose, content, 10+v, pref)
+}
+
+var c11RlHow = []string{"defaultPolicyRef", "the rule's policyRef", "the content of the default policy"}
+
+func (k *c11Kind) spec(pipe string, fv, pv int) (*supervisor.Spec, error) { return k.specD(pipe, fv, pv, 1, 0) }
+
+func (k *c11Kind) specD(pipe string, fv, pv, dv, how int) (*supervisor.Spec, error) {
 	res := fmt.Sprintf("- {name: nobody, kind: Retry, maxAttempts: %d}\n", pv+1)
 	if k.resil != nil {
 		res = k.resil(pv)
 	}
-	y := fmt.Sprintf("name: %s\nkind: Pipeline\n%sresilience:\n%s", pipe, k.filters(fv), res)
+	fl := k.filters(fv)
+	if k.filtersD != nil {
+		fl = k.filtersD(fv, dv, how)
+	}
+	y := fmt.Sprintf("name: %s\nkind: Pipeline\n%sresilience:\n%s", pipe, fl, res)
 	if k.cluster {
 		return c11Super.NewSpec(y)
 	}
@@ -287,6 +316,8 @@ func (k *c11Kind) newCtxFor(class, id string) *context.Context {
 		method := http.MethodGet
 		if class == "x" {
 			method = http.MethodPost
+		} else if class == "d" {
+			method = http.MethodPut
 		}
 		stdr := httptest.NewRequest(method, "http://c11.test/x?y=1", http.NoBody)
 		for h, v := range k.header {
@@ -365,12 +396,16 @@ func (k *c11Kind) handleFor(p *Pipeline, class, id string) (result, panicV, site
 
 // build creates a pipeline generation: Init (prev == nil) or Inherit; returns the panic, if any.
 func (k *c11Kind) build(pipe string, fv, pv int, prev *Pipeline) (p *Pipeline, err error) {
+	return k.buildD(pipe, fv, pv, 1, 0, prev)
+}
+
+func (k *c11Kind) buildD(pipe string, fv, pv, dv, how int, prev *Pipeline) (p *Pipeline, err error) {
 	defer func() {
 		if e := recover(); e != nil {
 			p, err = nil, fmt.Errorf("%v", e)
 		}
 	}()
-	spec, err := k.spec(pipe, fv, pv)
+	spec, err := k.specD(pipe, fv, pv, dv, how)
 	if err != nil {
 		return nil, err
 	}
@@ -444,6 +479,20 @@ func TestVerifC11Kinds(t *testing.T) {
 				if r1 != k.want || r2 != "rateLimited" {
 					why = fmt.Sprintf("harness: baseline: two POSTs to a fresh generation (limit 1 per hour) answered %q, %q", r1, r2)
 				}
+				// ... and so is the second PUT under a tight default policy, no PUT under a loose one, however the spec says it
+				for how := 0; how < 3 && why == ""; how++ {
+					a, _ := k.buildD("probe", 1, 1, 1, how, nil)
+					b, _ := k.buildD("probe", 1, 1, 2, how, nil)
+					a1, _, _ := k.handleFor(a, "d", "")
+					a2, _, _ := k.handleFor(a, "d", "")
+					b1, _, _ := k.handleFor(b, "d", "")
+					b2, _, _ := k.handleFor(b, "d", "")
+					if a1 != k.want || a2 != "rateLimited" || b1 != k.want || b2 != k.want {
+						why = fmt.Sprintf("harness: baseline (%s): two PUTs under a tight default policy answered %q, %q, under a loose one %q, %q", c11RlHow[how], a1, a2, b1, b2)
+					}
+					a.Close()
+					b.Close()
+				}
 			}
 			if pv == "" && res == k.want && k.beh == "px" { // baseline: a failing backend call is made maxAttempts = pv + 1 = 2 times
 				r1, _, _ := k.handleFor(probe, "f", "probe-f")
@@ -470,16 +519,17 @@ func TestVerifC11Kinds(t *testing.T) {
 				continue
 			}
 			nb++
+			how := bi % 3 // the way this schedule's specs express a switch of the default policy
 			cur := map[string]*Pipeline{}
 			for _, p := range []string{"pa", "pb"} {
-				cur[p], _ = k.build(p, 1, 1, nil)
+				cur[p], _ = k.buildD(p, 1, 1, 1, how, nil)
 			}
 			held := map[string]*Pipeline{}
 			tgs := map[string]string{}
 			cls := map[string]string{}
 			failed := map[string]bool{}
 			var next, removed *Pipeline
-			pendF, pendP := 0, 0
+			pendF, pendP, pendD := 0, 0, 1
 			for si, st := range beh {
 				steps++
 				bad := ""
@@ -522,6 +572,28 @@ func TestVerifC11Kinds(t *testing.T) {
 						default:
 							bad = fmt.Sprintf("harness: generation %d answered %q to a request for which the model still has a permit", vx.Int(st["ver"]), res)
 						}
+					} else if cls[r] == "d" {
+						// the limit of the default policy of the held generation: is the call limited as the model says?
+						limited, want := res == "rateLimited", vx.Str(st["res"]) == "limited"
+						pol := "loose: never limits"
+						if vx.Bool(st["tight"]) {
+							pol = "tight: 1 permit per hour"
+						}
+						switch {
+						case limited == want && (limited || res == k.want):
+							judged++
+						case vx.Bool(st["closed"]):
+							bad = "unjudged"
+						case want:
+							bad = fmt.Sprintf("configured: a request beyond the limit of the default policy (version %d, %s) got %q from generation %d of the pipeline, "+
+								"which is not closed; model says it is limited (default policy switched by: %s)", vx.Int(st["dv"]), pol, res, vx.Int(st["ver"]), c11RlHow[how])
+						case limited && !vx.Bool(st["tight"]):
+							bad = fmt.Sprintf("configured: generation %d of the pipeline, whose RateLimiter's default policy (version %d, %s) does not limit the URL, "+
+								"limited a request: the limiter of a previous generation's policy is still in force (default policy switched by: %s)",
+								vx.Int(st["ver"]), vx.Int(st["dv"]), pol, c11RlHow[how])
+						default:
+							bad = fmt.Sprintf("harness: generation %d answered %q to a request for which the model still has a permit", vx.Int(st["ver"]), res)
+						}
 					} else if cls[r] == "f" {
 						// the backend fails the call: the Proxy retries it as the retry policy of the generation says
 						want := int64(vx.Int(st["pol"]) + 1)
@@ -541,15 +613,15 @@ func TestVerifC11Kinds(t *testing.T) {
 					}
 				case "done":
 				case "pipBegin":
-					pendF, pendP = vx.Int(st["fv"]), vx.Int(st["pv"])
+					pendF, pendP, pendD = vx.Int(st["fv"]), vx.Int(st["pv"]), vx.Int(st["dv"])
 				case "createInit":
 					var err error
-					if next, err = k.build(p, vx.Int(st["fv"]), vx.Int(st["pv"]), nil); err != nil {
+					if next, err = k.buildD(p, vx.Int(st["fv"]), vx.Int(st["pv"]), vx.Int(st["dv"]), how, nil); err != nil {
 						bad = "status: Init of another pipeline failed: " + err.Error()
 					}
 				case "pipInherit":
 					var err error
-					if next, err = k.build(p, pendF, pendP, cur[p]); err != nil {
+					if next, err = k.buildD(p, pendF, pendP, pendD, how, cur[p]); err != nil {
 						bad = "status: Inherit failed: " + err.Error()
 					}
 					if k.slow {
